@@ -197,7 +197,7 @@ def _descr(case):
 
 @st.composite
 def reject_cases(draw, tier):
-    op = draw(st.sampled_from(['add', 'multiply', 'matmul', 'concatenate', 'stack', 'dot', 'einsum', 'reshape', 'broadcast_to', 'take-axis', 'transpose', 'getitem', 'minimum', 'subtract', 'cross', 'choose', 'swapaxes', 'trace', 'transpose-short', 'transpose-repeat']))
+    op = draw(st.sampled_from(['add', 'multiply', 'matmul', 'concatenate', 'stack', 'dot', 'einsum', 'reshape', 'broadcast_to', 'take-axis', 'transpose', 'getitem', 'minimum', 'subtract', 'cross', 'choose', 'swapaxes', 'trace', 'transpose-short', 'transpose-repeat', 'interp-length']))
     return dict(op=op, sample=draw(sample_spec()), a=draw(st.sampled_from([[2, 3], [3], [2, 2], [3, 2]])), wrong=draw(st.integers(4, 5)), varying=draw(st.booleans()))
 
 
@@ -217,6 +217,7 @@ def check_reject(case, rec):
             'stack': lambda: numpy.stack([A, arr(sb, 'B')], axis=0), 'einsum': lambda: numpy.einsum('...i,...i->...', A, arr(sb, 'B')),
             'reshape': lambda: numpy.reshape(A, (w, 7)), 'broadcast_to': lambda: numpy.broadcast_to(A, tuple(sa[:-1]) + (w,)), 'take-axis': lambda: numpy.take(A, [0], axis=len(sa) + 1),
             'transpose': lambda: numpy.transpose(A, list(range(len(sa))) + [len(sa)]), 'transpose-short': lambda: numpy.transpose(A, list(range(len(sa)))[1:] if len(sa) > 1 else [0, 0]),
+            'interp-length': lambda: numpy.interp(A, [0., 1., 2.][:w - 2], [1., 2., 3., 4.][:w - 1] if w == 5 else [1.]),
             'transpose-repeat': lambda: numpy.transpose(A, [0] * len(sa)) if len(sa) > 1 else numpy.transpose(A, [0, -1]), 'getitem': lambda: A[(0,) * (len(sa) + 1)], 'cross': lambda: numpy.cross(A, arr(sa[:-1] + [7], 'B')),
             'choose': lambda: numpy.choose(function.Argument('I', tuple(sa), dtype=int), [A, arr(sb, 'B')]), 'swapaxes': lambda: numpy.swapaxes(A, 0, len(sa) + 1), 'trace': lambda: numpy.trace(A, axis1=0, axis2=len(sa) + 2),
         }
